@@ -1,7 +1,7 @@
 """Which contract families decide which property, and at what claimed level."""
 PROPS = {
     'C03': {
-        'families': ['contracts.optimizer', 'contracts.optfold', 'contracts.sigsim', 'contracts.rebuild', 'contracts.native'],
+        'families': ['contracts.optimizer', 'contracts.optfold', 'contracts.sigsim', 'contracts.rebuild', 'contracts.table_ops', 'contracts.native'],
         'level': 'other',
         'technique': 'frame obligation by a conservative def-use scan of the real AST + contract on the fallback path; bounded native stand-in for result equivalence',
         'text': 'Frame obligation "processing does not alter the evolution definitions" decided by a conservative scan of every store '
@@ -84,7 +84,7 @@ PROPS = {
         'not_decided': ['closure lemma diff -> hint -> simulate at model/app/project level (bounded stand-in only)'],
     },
     'C08': {
-        'families': ['contracts.recording', 'contracts.execution'],
+        'families': ['contracts.recording', 'contracts.execution', 'contracts.batches'],
         'level': 'proof',
         'technique': 'contract-based deductive verification: VCs from the real AST, z3/cvc5',
         'text': 'Per-run obligations: get_unapplied_evolutions = order-preserving filter of the sequence by "not recorded"; '
@@ -108,7 +108,7 @@ PROPS = {
         'not_decided': ['actual table list and rows of the database after purge/delete'],
     },
     'C11': {
-        'families': ['contracts.refs', 'contracts.sigcontainers', 'contracts.native'],
+        'families': ['contracts.refs', 'contracts.sigcontainers', 'contracts.rebuild', 'contracts.native'],
         'level': 'proof',
         'technique': 'contract-based deductive verification: nested loop invariants over the three signature levels, VCs from the real AST, z3/cvc5',
         'text': 'Reference-rewrite postconditions of RenameModel.simulate and RenameAppLabel.simulate: after the rename no relation '
@@ -119,7 +119,7 @@ PROPS = {
         'not_decided': ['that database foreign keys point at the renamed table/column and PRAGMA foreign_key_check passes'],
     },
     'C12': {
-        'families': ['contracts.sigsim', 'contracts.sigdefaults', 'contracts.sigcontainers'],
+        'families': ['contracts.sigsim', 'contracts.sigdefaults', 'contracts.sigcontainers', 'contracts.optfold'],
         'level': 'proof',
         'technique': 'contract-based deductive verification: raising postconditions + gate obligation, VCs from the real AST, z3/cvc5',
         'text': 'Gate: _check_simulation returns True only with an empty residual diff, False only when simulation is impossible, '
@@ -134,7 +134,7 @@ PROPS = {
         'not_decided': ['Command.handle as a whole (option parsing, I/O) - only its gate callee is under contract'],
     },
     'C09': {
-        'families': ['contracts.graph', 'contracts.graph_edges', 'contracts.depcollect'],
+        'families': ['contracts.graph', 'contracts.graph_edges', 'contracts.depcollect', 'contracts.graph_add'],
         'level': 'proof',
         'technique': 'contract-based deductive verification: VCs from the real AST (incl. DFS loop invariants), z3/cvc5',
         'text': 'Contracts on DependencyGraph (add_node, add_dependency, remove_dependencies, finalize, get_node, '
@@ -170,7 +170,7 @@ PROPS = {
         'not_decided': ['that a retry equals an uninterrupted run needs determinism of the whole pipeline (only partly C14)'],
     },
     'C16': {
-        'families': ['contracts.routing', 'contracts.execution', 'contracts.recording', 'contracts.native'],
+        'families': ['contracts.routing', 'contracts.execution', 'contracts.recording', 'contracts.determinism', 'contracts.native'],
         'level': 'proof',
         'technique': 'contract-based deductive verification: VCs generated from the real AST, discharged by z3/cvc5',
         'text': 'is_mutable against an uninterpreted router function (result true iff the routers put the model on the '
